@@ -915,6 +915,136 @@ def build_switch(repo):
             "Proof. intros. repeat split. Qed.\n" % EUNITS[ce.args[0].value])
 
 
+# ----------------------------------------------------------------------------------------------- units under which library code touches managed attributes
+ACCESS_SPECS = [
+    # (file, qualified function, receivers that are FrequencyAxis objects there, description)
+    ("/quantarhei/core/frequency.py", "FrequencyAxis.get_TimeAxis", ("self",)),
+    ("/quantarhei/core/frequency.py", "FrequencyAxis.copy", ("self",)),
+    ("/quantarhei/core/time.py", "TimeAxis.get_FrequencyAxis", ()),
+    ("/quantarhei/core/dfunction.py", "DFunction.get_Fourier_transform", ("w",)),
+    ("/quantarhei/core/dfunction.py", "DFunction.get_inverse_Fourier_transform", ("w",)),
+]
+MANAGED_ATTRS = ("data", "start", "step")
+
+
+def managed_accesses(repo):
+    """every read of a units-managed attribute of a FrequencyAxis (data, start, step) and every construction of a FrequencyAxis
+    inside the axis-conversion functions, with the units that are current at that point: E_int inside `with energy_units("int")`,
+    the caller's units otherwise"""
+    out, names = [], []
+    for path, qual, receivers in ACCESS_SPECS:
+        mod = _module(repo + path)
+        ok = [s for s in mod.body if isinstance(s, ast.ImportFrom) and s.module == "managers" and s.level == 1
+              and any(a.name == "energy_units" and a.asname is None for a in s.names)]
+        if not ok:
+            raise Untranslatable("%s: energy_units is not imported from .managers" % path)
+        fn = _src_of(repo + path, qual)
+        found = []
+
+        def visit(node, inside):
+            if isinstance(node, (ast.FunctionDef, ast.Lambda, ast.ClassDef)) and node is not fn:
+                inside = False                       # runs later, under whatever units are current then
+            if isinstance(node, ast.With):
+                here = inside
+                for it in node.items:
+                    ce = it.context_expr
+                    visit(ce, inside)
+                    if isinstance(ce, ast.Call) and _u(ce.func) == "energy_units":
+                        if len(ce.args) == 1 and isinstance(ce.args[0], ast.Constant) and ce.args[0].value == "int" and not ce.keywords:
+                            here = True
+                        else:
+                            raise Untranslatable("%s: units context %s" % (qual, _u(ce)))
+                for st in node.body:
+                    visit(st, here)
+                return
+            if isinstance(node, ast.Attribute) and node.attr in MANAGED_ATTRS and isinstance(node.value, ast.Name) and node.value.id in receivers:
+                found.append((node.lineno, node.col_offset, _u(node), inside))
+            if isinstance(node, ast.Call) and _u(node.func) == "FrequencyAxis":
+                found.append((node.lineno, node.col_offset, "FrequencyAxis(...)", inside))
+            for ch in ast.iter_child_nodes(node):
+                visit(ch, inside)
+        visit(fn, False)
+        if not found:
+            raise Untranslatable("%s: no access to a units-managed attribute found" % qual)
+        found.sort()
+        g = "gen_access_units_" + qual.replace(".", "_")
+        names.append(g)
+        out.append("(* %s: %s *)\nDefinition %s (cur : eunit) : list eunit := [%s].\n"
+                   % (qual, "; ".join("%s %s" % (t, "inside" if i else "OUTSIDE") for (_, _, t, i) in found), g,
+                      "; ".join("E_int" if i else "cur" for (_, _, _, i) in found)))
+    out.append("(* whatever units the caller has, these functions read and write the managed attributes as stored (internal) values *)\n"
+               "Lemma gen_accesses_internal : forall (fac : eunit -> Q) cur x, fac E_int == 1 ->\n"
+               "  Forall (fun u => to_cur fac u x == x /\\ to_int fac u x == x) (%s).\n"
+               "Proof.\n  intros fac cur x Hf. apply accesses_internal; [exact Hf|]. intros u Hin. cbn in Hin.\n"
+               "  repeat (destruct Hin as [<-|Hin]; [reflexivity|]). contradiction.\nQed.\n" % " ++ ".join("%s cur" % g for g in names))
+    return "\n".join(out)
+
+
+
+RAW_SPECS = [
+    # (file, qualified function, parameter that carries an energy in the caller's units)
+    ("/quantarhei/qm/hilbertspace/hamiltonian.py", "Hamiltonian.subtract_cutoff_coupling", "coupling_cutoff"),
+    ("/quantarhei/builders/aggregate_base.py", "AggregateBase.set_resonance_coupling", "coupling"),
+    ("/quantarhei/builders/molecules.py", "Molecule.set_energy", "en"),
+    ("/quantarhei/builders/submodes.py", "SubMode.__init__", "omega"),
+    ("/quantarhei/builders/modes.py", "Mode.__init__", "frequency"),
+]
+TO_INTERNAL = ("self.convert_2_internal_u", "self.convert_energy_2_internal_u", "Manager().convert_energy_2_internal_u",
+               "self.manager.convert_energy_2_internal_u")
+
+
+def raw_arguments(repo):
+    """every use of an energy-valued argument inside the listed setters: E_int when it goes through the conversion to internal
+    units, the caller's units when the number is used as it came.  Tests that do not depend on the unit (is None, type, sign) are
+    not uses of the value."""
+    out, names = [], []
+    for path, qual, param in RAW_SPECS:
+        fn = _src_of(repo + path, qual)
+        if param not in [a.arg for a in fn.args.args]:
+            raise Untranslatable("%s has no parameter %s" % (qual, param))
+        parents = {}
+        for n in ast.walk(fn):
+            for ch in ast.iter_child_nodes(n):
+                parents[ch] = n
+        uses = []
+        for n in ast.walk(fn):
+            if not (isinstance(n, ast.Name) and n.id == param):
+                continue
+            if isinstance(n.ctx, ast.Store):
+                asg = parents.get(n)
+                if isinstance(asg, ast.Assign) and isinstance(asg.value, ast.Constant) and asg.value.value in (0, 0.0) and not isinstance(asg.value.value, bool):
+                    continue                      # default zero: the same quantity in every unit
+                raise Untranslatable("%s: the argument %s is reassigned (%s)" % (qual, param, _u(asg)[:60] if asg is not None else ""))
+            par = parents.get(n)
+            if isinstance(par, ast.Call) and _u(par.func) in TO_INTERNAL and len(par.args) == 1 and par.args[0] is n and not par.keywords:
+                uses.append((n.lineno, n.col_offset, "converted", True))
+                continue
+            if isinstance(par, ast.Compare) and len(par.ops) == 1:
+                other = par.comparators[0] if par.left is n else par.left
+                if isinstance(par.ops[0], (ast.Is, ast.IsNot)) and isinstance(other, ast.Constant) and other.value is None:
+                    continue
+                if isinstance(other, ast.Constant) and other.value in (0, 0.0) and not isinstance(other.value, bool) \
+                        and isinstance(par.ops[0], (ast.Lt, ast.LtE, ast.Gt, ast.GtE, ast.Eq, ast.NotEq)):
+                    continue                      # sign test: the conversion factors are positive
+            if isinstance(par, ast.Call) and _u(par.func) in ("type", "isinstance", "len") and par.args and par.args[0] is n:
+                continue
+            uses.append((n.lineno, n.col_offset, "RAW in `%s`" % _u(par)[:50].replace("*)", "* )"), False))
+        if not any(u[3] for u in uses):
+            raise Untranslatable("%s: the argument %s is never converted to internal units" % (qual, param))
+        uses.sort()
+        g = "gen_use_units_" + qual.replace(".", "_").replace("__", "")
+        names.append(g)
+        out.append("(* %s(%s): %s *)\nDefinition %s (cur : eunit) : list eunit := [%s].\n"
+                   % (qual, param, "; ".join(u[2] for u in uses), g, "; ".join("E_int" if u[3] else "cur" for u in uses)))
+    out.append("(* the energy handed to these setters is only ever used after conversion to internal units *)\n"
+               "Lemma gen_arguments_converted : forall (fac : eunit -> Q) cur x, fac E_int == 1 ->\n"
+               "  Forall (fun u => to_cur fac u x == x /\\ to_int fac u x == x) (%s).\n"
+               "Proof.\n  intros fac cur x Hf. apply accesses_internal; [exact Hf|]. intros u Hin. cbn in Hin.\n"
+               "  repeat (destruct Hin as [<-|Hin]; [reflexivity|]). contradiction.\nQed.\n" % " ++ ".join("%s cur" % g for g in names))
+    return "\n".join(out)
+
+
+
 HEAD = """(* GENERATED on every run by harness/translate_c05.py from quantarhei/core/units.py, core/managers.py, utils/types.py and
    builders/aggregate_base.py (see the module's docstring for the list).  let = assignment, if = if with the rest of the method in both
    branches, None = raise, match on an option = reading an attribute / dictionary entry that may be missing. *)
@@ -927,7 +1057,7 @@ Import ListNotations.
 def static(repo):
     lists, allowed = unit_lists(repo)
     parts = [HEAD, lists, tables(repo), converters(repo), manager_state(repo, allowed), contexts(repo, allowed), delegations(repo),
-             properties(repo), convert_functions(repo), build_switch(repo)]
+             properties(repo), convert_functions(repo), build_switch(repo), managed_accesses(repo), raw_arguments(repo)]
     what = ["units.py:conversion_facs_energy", "units.py:conversion_facs_length", "managers.py:Manager.units / allowed_utypes",
             "managers.py:Manager.convert_energy_2_internal_u (scalar and array path)", "managers.py:Manager.convert_energy_2_current_u (scalar and array path)",
             "managers.py:Manager.convert_length_2_internal_u", "managers.py:Manager.convert_length_2_current_u",
@@ -936,5 +1066,9 @@ def static(repo):
             "managers.py:length_units.__init__/__enter__/__exit__", "managers.py:frequency_units (= energy_units)",
             "managers.py:EnergyUnitsManaged/LengthUnitsManaged/UnitsManaged conversion delegations",
             "types.py:units_managed_property", "types.py:units_managed_array_property", "types.py:managed_array_property",
-            "units.py:convert", "units.py:in_current_units", "aggregate_base.py:AggregateBase.build (units switch; no raw switch in the package)"]
+            "units.py:convert", "units.py:in_current_units", "aggregate_base.py:AggregateBase.build (units switch; no raw switch in the package)",
+            "frequency.py:FrequencyAxis.get_TimeAxis (units current at every managed read)", "frequency.py:FrequencyAxis.copy (the same)", "time.py:TimeAxis.get_FrequencyAxis (units current at the construction)",
+            "dfunction.py:DFunction.get_Fourier_transform / get_inverse_Fourier_transform (units current at the read of the frequency step)",
+            "hamiltonian.py:Hamiltonian.subtract_cutoff_coupling, aggregate_base.py:AggregateBase.set_resonance_coupling, molecules.py:Molecule.set_energy, "
+            "submodes.py:SubMode.__init__, modes.py:Mode.__init__ (every use of the energy argument is behind the conversion to internal units)"]
     return "\n".join(parts), what
